@@ -42,7 +42,7 @@ func init() {
 		Real:         []string{"service (config decoding, Manager, relays)", "router", "dns", "clientgroups", "cred", "ss2022 (policy fields, key checks)", "all protocol packages under smoke traffic"},
 		Stub:         []string{"kernel sockets (simnet)", "uPSK store on the simulated disk", "clock (synctest)", "TLS and GeoIP (never configured)"},
 		Assumptions:  []string{"the documented defaults are taken from README.md and the doc comments of the configuration structs", "a configuration the catalogue marks invalid violates one invariant only, so the refusal is attributable"},
-		ExpectProbes: []string{"c18.class.invalid", "c18.class.boundary", "c18.class.defaults", "c18.class.smoke", "c18.refused-as-required", "c18.smoke.tcp-ok", "c18.smoke.udp-ok", "c18.defaults.reject-policy", "c18.defaults.padding-policy", "c18.defaults.legacy-listener", "c18.defaults.client-network", "c18.smoke.domain-target"},
+		ExpectProbes: []string{"c18.class.invalid", "c18.class.boundary", "c18.class.defaults", "c18.class.smoke", "c18.refused-as-required", "c18.smoke.tcp-ok", "c18.smoke.udp-ok", "c18.defaults.reject-policy", "c18.defaults.padding-policy", "c18.defaults.legacy-listener", "c18.defaults.client-network", "c18.smoke.domain-target", "c18.smoke.from-servers-route"},
 	})
 }
 
@@ -338,6 +338,17 @@ func injections(s *simrt.Sim) []injection {
 			g.groups = append(g.groups, svc.J{"name": "direct", "tcp": svc.J{"policy": "round-robin", "clients": []string{"direct"}}})
 			return true
 		}},
+		{"group-name-equals-udp-only-client-name", false, func(g *gen) bool {
+			g.cs = append(g.cs, &svc.ClientSpec{Name: "uonly", Proto: svc.PDirect, UDP: true, MTU: 1500})
+			g.groups = append(g.groups, svc.J{"name": "uonly", "udp": svc.J{"policy": "round-robin", "clients": []string{"uonly"}}})
+			return true
+		}},
+		{"duplicate-udp-only-group-name", false, func(g *gen) bool {
+			g.cs = append(g.cs, &svc.ClientSpec{Name: "uonly", Proto: svc.PDirect, UDP: true, MTU: 1500})
+			gr := svc.J{"name": "ugrp", "udp": svc.J{"policy": "round-robin", "clients": []string{"uonly"}}}
+			g.groups = append(g.groups, gr, gr)
+			return true
+		}},
 		{"duplicate-group-name", false, func(g *gen) bool {
 			gr := svc.J{"name": "grp", "tcp": svc.J{"policy": "round-robin", "clients": []string{"direct"}}}
 			g.groups = append(g.groups, gr, gr)
@@ -495,6 +506,16 @@ func runSmoke(s *simrt.Sim, e *svc.Env) {
 	}
 	if s.GenChance(64) {
 		g.dns = append(g.dns, svc.J{"name": "sys", "type": "system"})
+	}
+	if len(g.sp) >= 2 && s.GenChance(128) {
+		// a route limited to some of the servers: traffic of the others passes it by
+		k := 1 + s.Choose(len(g.sp)-1)
+		var from []string
+		for _, sp := range g.sp[:k] {
+			from = append(from, sp.Name)
+		}
+		g.routes = append(g.routes, svc.J{"name": "from-some-servers", "network": "tcp", "fromServers": from, "client": g.router["defaultTCPClientName"]})
+		s.Probe("c18.smoke.from-servers-route")
 	}
 	var protos []string
 	for _, sp := range g.sp {
